@@ -211,4 +211,24 @@ def removeTrailingBlankLines (l : Bytes) : Option Bytes :=
   let keep := (tail.takeWhile fun c => !isLineEnd c).length
   some (l.take (i + keep))
 
+/-! ## CommonMark writer: prefix bookkeeping around an ordered list item inside a block quote
+(`format_block_quote`, `format_item` in src/cm.rs). A witness model for one defect: only the length
+of `self.prefix` is tracked. -/
+
+def numDigitsAux : Nat → Nat → Nat
+  | 0, _ => 1
+  | f + 1, n => if n < 10 then 1 else 1 + numDigitsAux f (n / 10)
+
+def numDigits (n : Nat) : Nat := numDigitsAux 20 n
+
+/-- `> n) x`: enter block quote (+2), enter item (+ width of "n) "), leave item (the width is
+    recomputed from the already incremented `ol_stack` top, i.e. for `n + 1`, clamped at 0), leave
+    block quote (`self.prefix.len() - 2`; `none` = the subtraction underflows, a panic in builds with
+    overflow checks). -/
+def cmQuoteItemPrefix (n : Nat) : Option Nat :=
+  let p1 := 2 + (numDigits n + 2)
+  let w' := numDigits (n + 1) + 2
+  let p2 := if p1 > w' then p1 - w' else 0
+  if p2 < 2 then none else some (p2 - 2)
+
 end Comrak.Tot
